@@ -133,7 +133,16 @@ def custom_classes():
                 return self.M.dot(x.asarray())
             out[:] = self.M.dot(x.asarray())
 
-    _CUSTOM.update(IpMat=IpMat, OopMat=OopMat, BothMat=BothMat, KwBothMat=KwBothMat)
+    class IpMatBadRet(odl.Operator):
+        def __init__(self, M, dom, ran):
+            super(IpMatBadRet, self).__init__(dom, ran, linear=True)
+            self.M = M
+
+        def _call(self, x, out):
+            out[:] = self.M.dot(x.asarray())
+            return x
+
+    _CUSTOM.update(IpMat=IpMat, OopMat=OopMat, BothMat=BothMat, KwBothMat=KwBothMat, IpMatBadRet=IpMatBadRet)
     return _CUSTOM
 
 
@@ -149,9 +158,9 @@ class Node(object):
         self.op, self.coq, self.dom, self.ran, self.sig = op, coq, dom, ran, sig
 
 
-def leaf_term(kind, fun, dom, ran, alias=False):
-    return ('(Lf {| lf_kind := %s; lf_fun := %s; lf_alias := %s; lf_quirk := QNone |} %s %s)'
-            % (kind, fun, C.b(alias), sp_term(dom), rsp_term(ran)))
+def leaf_term(kind, fun, dom, ran, alias=False, quirk='QNone'):
+    return ('(Lf {| lf_kind := %s; lf_fun := %s; lf_alias := %s; lf_quirk := %s |} %s %s)'
+            % (kind, fun, C.b(alias), quirk, sp_term(dom), rsp_term(ran)))
 
 
 def op_term(cls, dom, ran, pars=(), vecs=(), owns=(), kids=()):
@@ -182,6 +191,8 @@ def gen_leaf(rng, reg, dom, ran, big):
     R = space_of(ran)
     m = ran[0]
     choices = ['matrix', 'ipmat', 'oopmat', 'bothmat', 'kwbothmat'] if not big else []
+    if not big and rng.random() < 0.06:
+        choices = ['ipmat_badret', 'oopmat_wrongsize']
     if dom != ran:
         choices += ['zero_diff']
     if dom == ran:
@@ -190,6 +201,15 @@ def gen_leaf(rng, reg, dom, ran, big):
     else:
         choices += ['constant2']
     c = rng.choice(choices)
+    if c == 'ipmat_badret':
+        M = np.array([[float(rng.randint(-2, 2)) for _ in range(n)] for _ in range(m)])
+        mt = '(PMat %s)' % C.lst([oqs(r) for r in M.tolist()])
+        return Node(custom_classes()['IpMatBadRet'](M, D, R), leaf_term('KIp', mt, dom, ran, quirk='QReturnsX'),
+                    dom, ran, c)
+    if c == 'oopmat_wrongsize':
+        M = np.array([[float(rng.randint(-2, 2)) for _ in range(n)] for _ in range(m + 1)])
+        mt = '(PMat %s)' % C.lst([oqs(r) for r in M.tolist()])
+        return Node(custom_classes()['OopMat'](M, D, R), leaf_term('KOop', mt, dom, ran), dom, ran, c)
     if c in ('matrix', 'ipmat', 'oopmat', 'bothmat', 'kwbothmat'):
         M = np.array([[float(rng.randint(-2, 2)) for _ in range(n)] for _ in range(m)])
         mt = '(PMat %s)' % C.lst([oqs(r) for r in M.tolist()])
@@ -535,6 +555,52 @@ def prox_cases(rng, tier):
     return cs
 
 
+SIGS = ['self, x', 'self, x, out', 'self, x, out=None', 'self, x, *, out=None', 'self, x, *, out=1',
+        'self, out', 'self, out, x', 'self, x, y', 'self, x, out=1', 'self, x=None, out=None', 'self, x, *args',
+        'self, x, out, *args', 'self', 'self, x, out, z', 'self, x, **kwargs', 'self, x, out, **kwargs',
+        'self, x, out=None, **kwargs', 'self, x, *, out=None, **kwargs', 'self, x, *, other=None',
+        'self, y', 'self, y, out', 'self, x, OUT', 'self, x=3', 'self, x, *, out']
+
+
+def dispatch_cases():
+    """The real _dispatch_call_args on classes with every signature shape vs the Coq decision table."""
+    import inspect
+    from odl.operator.operator import _dispatch_call_args
+    cs = C.CaseSet('dispatch', ['C03.Syntax', 'Gen.C03Bodies', 'C03.Model', 'C03.Corr'], 'dcheck', 'dcase')
+    for sig in SIGS:
+        env = {}
+        exec('class K(object):\n    def _call(%s):\n        pass\n' % sig, env)
+        K = env['K']
+        try:
+            has_out, out_optional, _ = _dispatch_call_args(K)
+            res = '(Some (%s, %s))' % (C.b(has_out), C.b(out_optional))
+        except ValueError:
+            res = 'None'
+        except (TypeError, KeyError):
+            # `_call(self, x, *, out)` (keyword-only out WITHOUT default) makes the dispatcher itself crash
+            # on kw_only_defaults['out']; not a call-protocol matter, kept out of the table (see notes)
+            continue
+        sp = inspect.getfullargspec(K._call)
+        pos = sp.args[1:]
+        ndef = len(sp.defaults or ())
+        last_none = bool(sp.defaults) and sp.defaults[-1] is None
+        if 'out' in sp.kwonlyargs:
+            kd = (sp.kwonlydefaults or {}).get('out', 'nodefault')
+            kwout = '(Some %s)' % C.b(kd is None)
+            if kd == 'nodefault':
+                kwout = None
+        else:
+            kwout = 'None'
+        if kwout is None:
+            # keyword-only out without default: the real code raises KeyError; keep it out of the table
+            continue
+        term = ('{| dc_sig := {| s_pos := %s; s_ndef := %d; s_last_none := %s; s_vararg := %s; s_kwout := %s |}; '
+                'dc_res := %s |}' % (C.lst(['"%s"%%string' % a for a in pos]), ndef, C.b(last_none),
+                                     C.b(sp.varargs is not None), kwout, res))
+        cs.add(term, {'signature': '_call(%s)' % sig, 'result': res}, ('sig', sig))
+    return cs
+
+
 def correspondence(rng, tier):
     cs = C.CaseSet('trees', ['C03.Syntax', 'Gen.C03Bodies', 'C03.Poison', 'C03.Model', 'C03.Corr'], 'check', 'case')
     nsmall = 420 if tier == 'quick' else 3000
@@ -549,7 +615,7 @@ def correspondence(rng, tier):
         mode = ['oop', 'ip_nan', 'ip_rand', 'ip_nan'][k % 4]
         term, desc, key = make_case(rng, rng.choice([0, 1, 2, 2]), True, mode)
         cs.add(term, desc, key)
-    return [cs, prox_cases(rng, tier), kind_cases()]
+    return [cs, prox_cases(rng, tier), kind_cases(), dispatch_cases()]
 
 
 def probes(rng, tier):
